@@ -144,6 +144,14 @@ def shard(ctx):
                               {'reindent_aligned': True}]),
                   ('bulk',))
             continue
+        if i % 700 == 50:
+            from vlib import hostile
+            check(ctx, hostile.many_statements(rng),
+                  rng.choice([{}, {'strip_whitespace': True},
+                              {'reindent': True},
+                              {'use_space_around_operators': True}]),
+                  ('many',))
+            continue
         x = rng.random()
         trigger = None
         if x < 0.08:
